@@ -240,7 +240,7 @@ func (m *c10Sim) use(s *c10State) {
 // root of an address/value: (is template, is pod, path)
 func (m *c10Sim) where(s *c10State, v ssa.Value, fr *frame) (isT, isP bool, path []string) {
 	m.use(s)
-	r, p := m.F.loc(fval{v, fr})
+	r, p := m.F.loc(fval{v: v, fr: fr})
 	if r.fr != m.top && r.fr != nil {
 		// a value of an inlined helper frame that is not rooted at a parameter
 		return false, false, p
@@ -280,7 +280,7 @@ func (m *c10Sim) run(fn *ssa.Function, fr *frame, st *c10State, depth int) []*c1
 		for _, s := range states {
 			s.lastRet = nil
 			for _, res := range ret.Results {
-				s.lastRet = append(s.lastRet, fval{p.Resolve(res), fr})
+				s.lastRet = append(s.lastRet, fval{v: p.Resolve(res), fr: fr})
 			}
 		}
 		out = append(out, states...)
@@ -301,7 +301,7 @@ func (m *c10Sim) step(s *c10State, in ssa.Instruction, fr *frame, p *Path, depth
 		if len(path) == 0 || (!isT && !isP) {
 			return one
 		}
-		val := fval{p.Resolve(x.Val), fr}
+		val := fval{v: p.Resolve(x.Val), fr: fr}
 		switch {
 		case isP:
 			// whole-struct copy from the template?
@@ -350,7 +350,7 @@ func (m *c10Sim) step(s *c10State, in ssa.Instruction, fr *frame, p *Path, depth
 		}
 		toP := isP || (s.copied[path[0]] && s.aliased(path))
 		if key, ok := constString(x.Key); ok {
-			val := fval{p.Resolve(x.Value), fr}
+			val := fval{v: p.Resolve(x.Value), fr: fr}
 			if isT || !s.copied[path[0]] || s.aliased(path) {
 				s.setEntry(s.t, path, key, val)
 			}
@@ -419,8 +419,8 @@ func (m *c10Sim) step(s *c10State, in ssa.Instruction, fr *frame, p *Path, depth
 			for _, ta := range targs {
 				if ta.ai == 1 && ta.isP && len(ta.path) == 0 {
 					m.use(s)
-					owner := m.F.resolve(fval{unwrap(cc.Args[0]), fr})
-					sch := m.F.resolve(fval{cc.Args[2], fr})
+					owner := m.F.resolve(fval{v: unwrap(cc.Args[0]), fr: fr})
+					sch := m.F.resolve(fval{v: cc.Args[2], fr: fr})
 					if owner.v == ssa.Value(m.c.rs) && sch.v == ssa.Value(m.c.scheme) {
 						s.ownerRef = 1
 					} else {
@@ -531,7 +531,7 @@ func (m *c10Sim) getterOf(s *c10State, x fval, obj ssa.Value, suffix string) boo
 	if recv == nil {
 		return false
 	}
-	r, p := m.F.loc(fval{recv, x.fr})
+	r, p := m.F.loc(fval{v: recv, fr: x.fr})
 	return m.isTopObj(r, obj) && len(stripMeta(p)) == 0
 }
 
@@ -564,7 +564,7 @@ func (m *c10Sim) edsName(s *c10State, x fval) bool {
 	if k, isC := constString(l.Index); !isC || k != m.c.edsKey {
 		return false
 	}
-	return m.fieldOf(s, fval{l.X, x.fr}, m.c.rs, "Labels") || m.getterOf(s, fval{l.X, x.fr}, m.c.rs, ".GetLabels")
+	return m.fieldOf(s, fval{v: l.X, fr: x.fr}, m.c.rs, "Labels") || m.getterOf(s, fval{v: l.X, fr: x.fr}, m.c.rs, ".GetLabels")
 }
 
 func c10IsStdTolerations(v ssa.Value) bool {
@@ -743,7 +743,7 @@ func (c *c10Ctx) constructor() {
 			return false
 		}
 		sim.use(s)
-		return sim.isTopObj(F.resolve(fval{other, f.fr}), obj)
+		return sim.isTopObj(F.resolve(fval{v: other, fr: f.fr}), obj)
 	}
 	for _, s := range finals {
 		if s.undec != "" {
@@ -797,7 +797,7 @@ func (c *c10Ctx) constructor() {
 			af, aset := s.get("Spec", "Affinity")
 			pinOK := nset && sim.nameOf(s, nn, c.node)
 			if !pinOK && aset {
-				if call, ok := af.v.(*ssa.Call); ok && calleeName(&call.Call) == pkgAffinity+".ReplaceNodeNameNodeAffinity" && len(call.Call.Args) == 2 && sim.nameOf(s, fval{call.Call.Args[1], af.fr}, c.node) {
+				if call, ok := af.v.(*ssa.Call); ok && calleeName(&call.Call) == pkgAffinity+".ReplaceNodeNameNodeAffinity" && len(call.Call.Args) == 2 && sim.nameOf(s, fval{v: call.Call.Args[1], fr: af.fr}, c.node) {
 					pinOK = true
 				}
 			}
@@ -811,7 +811,7 @@ func (c *c10Ctx) constructor() {
 			verdicts := map[bool]bool{}
 			isHashCall := func(v ssa.Value, fr *frame) (fval, bool) {
 				sim.use(s)
-				x := F.resolve(fval{v, fr})
+				x := F.resolve(fval{v: v, fr: fr})
 				call, isCall := x.v.(*ssa.Call)
 				if isCall && hashFn != nil && staticCallee(&call.Call) == hashFn {
 					return x, true
@@ -859,7 +859,7 @@ func (c *c10Ctx) constructor() {
 				}
 			default:
 				call := hc.v.(*ssa.Call)
-				argsOK := len(call.Call.Args) == 3 && sim.namespaceOf(s, fval{call.Call.Args[0], hc.fr}, c.rs) && sim.edsName(s, fval{call.Call.Args[1], hc.fr}) && sim.annotationsOf(s, fval{call.Call.Args[2], hc.fr}, c.node)
+				argsOK := len(call.Call.Args) == 3 && sim.namespaceOf(s, fval{v: call.Call.Args[0], fr: hc.fr}, c.rs) && sim.edsName(s, fval{v: call.Call.Args[1], fr: hc.fr}) && sim.annotationsOf(s, fval{v: call.Call.Args[2], fr: hc.fr}, c.node)
 				same := false
 				if hset {
 					sim.use(s)
@@ -936,8 +936,12 @@ func c10Affinity(r *Run) {
 	}
 	aff, nodename := fn.Params[0], fn.Params[1]
 
-	// the requirement value: a load of a local literal {Key: key, Operator: In, Values: [nodename]}
-	isReqAlloc := func(a *ssa.Alloc) bool {
+	// the requirement value: a load of a literal {Key: key, Operator: In, Values: [nodename]} — a local one,
+	// or the literal a repository helper returns when called with nodename
+	F := newFrames(r.Prog)
+	F.enterCalls = true
+	topFr := F.top(fn)
+	isReqAlloc := func(a *ssa.Alloc, fr *frame) bool {
 		if typeName(a.Type()) != pkgCoreV1+".NodeSelectorRequirement" {
 			return false
 		}
@@ -952,10 +956,10 @@ func c10Affinity(r *Run) {
 		if k == nil || op == nil || vals == nil {
 			return false
 		}
-		if s, ok := constString(k); !ok || s != keyConst {
+		if s, ok := constString(F.resolve(fval{v: k, fr: fr}).v); !ok || s != keyConst {
 			return false
 		}
-		if s, ok := constString(op); !ok || s != "In" {
+		if s, ok := constString(F.resolve(fval{v: op, fr: fr}).v); !ok || s != "In" {
 			return false
 		}
 		sl, ok := vals.(*ssa.Slice)
@@ -967,7 +971,10 @@ func c10Affinity(r *Run) {
 			return false
 		}
 		el, ok := orderedArrayElems(arr)
-		if !ok || len(el) != 1 || el[0] != ssa.Value(nodename) {
+		if !ok || len(el) != 1 {
+			return false
+		}
+		if e := F.resolve(fval{v: el[0], fr: fr}); e.v != ssa.Value(nodename) || (e.fr != topFr && e.fr != nil) {
 			return false
 		}
 		// no other writes: the literal is only stored to once per field and loaded
@@ -975,22 +982,45 @@ func c10Affinity(r *Run) {
 		return ro
 	}
 	isReq := func(v ssa.Value) bool {
-		u, ok := v.(*ssa.UnOp)
+		x := F.resolve(fval{v: v, fr: topFr})
+		u, ok := x.v.(*ssa.UnOp)
 		if !ok || u.Op != token.MUL {
 			return false
 		}
 		a, ok := u.X.(*ssa.Alloc)
-		return ok && isReqAlloc(a)
+		return ok && isReqAlloc(a, x.fr)
 	}
 	nReq := 0
 	for _, b := range fn.Blocks {
 		for _, in := range b.Instrs {
-			if a, ok := in.(*ssa.Alloc); ok && isReqAlloc(a) {
+			if v, ok := in.(ssa.Value); ok && typeName(v.Type()) == pkgCoreV1+".NodeSelectorRequirement" && isReq(v) {
 				nReq++
 			}
 		}
 	}
-	r.Check("C10.R2", "node-name requirement", pos, sf, "a requirement literal {Key: "+keyConst+", Operator: In, Values: [nodename]} exists", nReq > 0, fmt.Sprintf("%d such literals", nReq))
+	r.Check("C10.R2", "node-name requirement", pos, sf, "a requirement {Key: "+keyConst+", Operator: In, Values: [nodename]} is built (here or by a helper called with nodename)", nReq > 0, fmt.Sprintf("%d such values", nReq))
+
+	// the affinity being completed: the parameter, a fresh Affinity that replaces a nil parameter, or their merge
+	var isAff func(v ssa.Value) bool
+	isAff = func(v ssa.Value) bool {
+		switch x := v.(type) {
+		case *ssa.Parameter:
+			return x == aff
+		case *ssa.Alloc:
+			return typeName(x.Type()) == pkgCoreV1+".Affinity"
+		case *ssa.Phi:
+			if !isPtrToNamed(x.Type(), pkgCoreV1, "Affinity") {
+				return false
+			}
+			for _, o := range origins(x) {
+				if _, isPhi := o.(*ssa.Phi); isPhi || !isAff(o) {
+					return false
+				}
+			}
+			return true
+		}
+		return false
+	}
 
 	// slice literal containing only the requirement
 	isReqList := func(v ssa.Value) bool {
@@ -1052,7 +1082,7 @@ func c10Affinity(r *Run) {
 				continue
 			}
 			root, p := accessPath(st.Addr)
-			if root != ssa.Value(aff) {
+			if !isAff(root) {
 				continue
 			}
 			switch {
@@ -1080,12 +1110,13 @@ func c10Affinity(r *Run) {
 		construct := fmt.Sprintf("return %d pins the node", i+1)
 		need := "the returned affinity's required node selector is the fresh single-term selector or the rebuilt term list"
 		if a, ok := res.(*ssa.Alloc); ok {
-			nas := fieldStores(a, "NodeAffinity")
-			r.Check("C10.R2", construct, r.Prog.Pos(instrPos(ret)), sf, need, len(nas) == 1 && isFreshNA(nas[0]), "fresh Affinity literal")
-			continue
+			if nas := fieldStores(a, "NodeAffinity"); len(nas) == 1 && isFreshNA(nas[0]) {
+				r.Check("C10.R2", construct, r.Prog.Pos(instrPos(ret)), sf, need, true, "fresh Affinity literal")
+				continue
+			}
 		}
-		if res != ssa.Value(aff) {
-			r.Undecided("C10.R2", construct, r.Prog.Pos(instrPos(ret)), sf, "returns neither a fresh literal nor the parameter")
+		if !isAff(res) {
+			r.Undecided("C10.R2", construct, r.Prog.Pos(instrPos(ret)), sf, "returns neither the affinity parameter nor a fresh Affinity")
 			continue
 		}
 		// walk the path: a pin store must be the last store through the parameter
@@ -1096,7 +1127,12 @@ func c10Affinity(r *Run) {
 				if !ok {
 					continue
 				}
-				if root, _ := accessPath(st.Addr); root != ssa.Value(aff) {
+				root, _ := accessPath(st.Addr)
+				if !isAff(root) {
+					continue
+				}
+				// a store through another affinity object than the one returned on this path does not count
+				if rr := p.Resolve(root); rr != res && root != ret.Results[0] {
 					continue
 				}
 				found = ""
@@ -1119,7 +1155,7 @@ func c10Affinity(r *Run) {
 		o2 := r.Check("C10.R2", cTerm, pos, sf, "no rebuilt list in this implementation", true, "")
 		o2.Trivial = true
 	} else {
-		c10RebuiltList(r, fn, k, rebuilt, aff, isReq, isReqList, cLoop, cTerm)
+		c10RebuiltList(r, fn, k, rebuilt, isAff, isReq, isReqList, cLoop, cTerm)
 	}
 
 	// reader
@@ -1204,7 +1240,7 @@ func readOnlyLiteral(a *ssa.Alloc) (int, bool) {
 	return n, true
 }
 
-func c10RebuiltList(r *Run, fn *ssa.Function, k *keyer, L *ssa.Phi, aff *ssa.Parameter, isReq, isReqList func(ssa.Value) bool, cLoop, cTerm string) {
+func c10RebuiltList(r *Run, fn *ssa.Function, k *keyer, L *ssa.Phi, isAff func(ssa.Value) bool, isReq, isReqList func(ssa.Value) bool, cLoop, cTerm string) {
 	sf := shortFunc(fn)
 	H := L.Block()
 	pos := r.Prog.Pos(L.Pos())
@@ -1296,7 +1332,7 @@ func c10RebuiltList(r *Run, fn *ssa.Function, k *keyer, L *ssa.Phi, aff *ssa.Par
 			root, pp := accessPath(S)
 			hdr, why := indexLoopOver(k, idx, S)
 			switch {
-			case root != ssa.Value(aff) || !samePath(pp, []string{"NodeAffinity", "RequiredDuringSchedulingIgnoredDuringExecution", "NodeSelectorTerms"}):
+			case !isAff(root) || !samePath(pp, []string{"NodeAffinity", "RequiredDuringSchedulingIgnoredDuringExecution", "NodeSelectorTerms"}):
 				okLoop, whyLoop = false, "the loop does not range over affinity.NodeAffinity.Required….NodeSelectorTerms"
 			case hdr != H:
 				okLoop, whyLoop = false, "index loop: "+why
@@ -2001,10 +2037,24 @@ func (c *c10Ctx) comparatorConsults(higher map[string]bool) {
 					val, target = x.Value, x.Map
 				case *ssa.Store:
 					val, target = x.Val, x.Addr
+				case *ssa.Call:
+					// a repository helper that writes what it is given: the call is the overlay write
+					cal := staticCallee(&x.Call)
+					if cal == nil || !r.Prog.IsRuleSite(cal) {
+						continue
+					}
+					for ai, a := range x.Call.Args {
+						if dependsOnV(a, isSettingData) && c10WritesFromParam(r.Prog, cal, ai, 0) {
+							val = a
+						}
+					}
+					if val == nil {
+						continue
+					}
 				default:
 					continue
 				}
-				if !dependsOn(val, isSettingData) {
+				if !dependsOnV(val, isSettingData) {
 					continue
 				}
 				// stores into local variable cells (copies such as range variables) are not overlays
@@ -2336,6 +2386,27 @@ func (c *c10Ctx) overrideAgreement() {
 					continue
 				}
 				F, dnf, mixed, okD := c10GuardDNF(r.Prog, fn, b, takesNode)
+				// collect-then-act: the stored value may have been produced earlier (an element of a slice of
+				// records filled under the lookup's facts); the condition of the store is then the conjunction
+				// of its own guard and of the guard under which the record was collected
+				if pF, pdnf, pmixed, pok := c10ProducerGuards(r.Prog, fn, st.Val, takesNode); pok && pF != nil {
+					switch {
+					case F == nil:
+						F, dnf = pF, pdnf
+					case F == pF:
+						var prod [][]c10Atom
+						for _, x := range dnf {
+							for _, y := range pdnf {
+								prod = append(prod, append(append([]c10Atom{}, x...), y...))
+							}
+						}
+						dnf = prod
+					default:
+						mixed = true
+					}
+					mixed = mixed || pmixed
+					okD = true
+				}
 				if mixed || F == nil || !okD {
 					undec = "the constructor's condition for applying the annotation (" + r.Prog.Pos(instrPos(st)) + ") is not expressed by facts on the results of one lookup function"
 					continue
@@ -3051,4 +3122,145 @@ func c10HelperPins(prog *Prog, fn *ssa.Function, ti, ri int, depth int) (bool, s
 		}
 	}
 	return n > 0, "no return"
+}
+
+// c10WritesFromParam: the function stores data derived from parameter idx into memory (a store or
+// map update whose target is not one of its own variable cells), itself or through a repository callee.
+func c10WritesFromParam(prog *Prog, fn *ssa.Function, idx int, depth int) bool {
+	if idx >= len(fn.Params) || len(fn.Blocks) == 0 {
+		return false
+	}
+	par := isParam(fn.Params[idx])
+	for _, b := range fn.Blocks {
+		for _, in := range b.Instrs {
+			switch x := in.(type) {
+			case *ssa.MapUpdate:
+				if dependsOnV(x.Value, par) {
+					return true
+				}
+			case *ssa.Store:
+				if _, isCell := x.Addr.(*ssa.Alloc); !isCell && dependsOnV(x.Val, par) {
+					return true
+				}
+			case *ssa.Call:
+				cal := staticCallee(&x.Call)
+				if cal == nil || !prog.IsRuleSite(cal) || depth >= 2 {
+					continue
+				}
+				for ai, a := range x.Call.Args {
+					if dependsOnV(a, par) && c10WritesFromParam(prog, cal, ai, depth+1) {
+						return true
+					}
+				}
+			}
+		}
+	}
+	return false
+}
+
+// c10ProducerGuards: when val is (a field of) an element of a slice that is filled by appends — in fn
+// or in the repository function that returns the slice — it returns the condition under which the
+// elements are appended, as facts on the results of one lookup function (see c10GuardDNF).
+func c10ProducerGuards(prog *Prog, fn *ssa.Function, val ssa.Value, takesNode func(*ssa.Function) bool) (F *ssa.Function, dnf [][]c10Atom, mixed, ok bool) {
+	// element of which slice?
+	var S ssa.Value
+	root, _ := deepPath(val)
+	switch x := root.(type) {
+	case *ssa.Alloc: // range variable copy of S[i]
+		if st, ro := readOnlyCopy(x); ro {
+			if u, isL := st.Val.(*ssa.UnOp); isL && u.Op == token.MUL {
+				if ia, isIA := u.X.(*ssa.IndexAddr); isIA {
+					S = ia.X
+				}
+			}
+		}
+	}
+	if S == nil {
+		// direct S[i].f: deepPath walked through the element; find the innermost IndexAddr
+		v := val
+		for i := 0; i < 16 && v != nil; i++ {
+			switch y := v.(type) {
+			case *ssa.UnOp:
+				v = y.X
+			case *ssa.FieldAddr:
+				v = y.X
+			case *ssa.Field:
+				v = y.X
+			case *ssa.IndexAddr:
+				S, v = y.X, nil
+			default:
+				v = nil
+			}
+		}
+	}
+	if S == nil {
+		return nil, nil, false, false
+	}
+	type site struct {
+		fn *ssa.Function
+		b  *ssa.BasicBlock
+	}
+	var sites []site
+	for _, o := range origins(S) {
+		var rep ssa.Value
+		in := fn
+		switch y := o.(type) {
+		case *ssa.Extract, *ssa.Call:
+			var call *ssa.Call
+			idx := 0
+			if ex, isE := y.(*ssa.Extract); isE {
+				call, _ = ex.Tuple.(*ssa.Call)
+				idx = ex.Index
+			} else {
+				call = y.(*ssa.Call)
+			}
+			if call == nil {
+				return nil, nil, false, false
+			}
+			if _, isAp := isBuiltinCall(call, "append"); isAp {
+				// origins() looks through appends; a remaining append is a local accumulation step
+				sites = append(sites, site{fn, call.Block()})
+				continue
+			}
+			G := staticCallee(&call.Call)
+			if G == nil || !prog.IsRuleSite(G) {
+				return nil, nil, false, false
+			}
+			rv := singleReturn(G, idx)
+			if rv == nil {
+				return nil, nil, false, false
+			}
+			rep, in = c20RepOf(rv), G
+			if rep == nil {
+				return nil, nil, false, false
+			}
+		default:
+			continue // initial empty values, element literals
+		}
+		_, steps, blocks := c20Accum(rep)
+		if len(steps) == 0 {
+			return nil, nil, false, false
+		}
+		for _, b := range blocks {
+			sites = append(sites, site{in, b})
+		}
+	}
+	if len(sites) == 0 {
+		return nil, nil, false, false
+	}
+	for _, st := range sites {
+		f2, d2, m2, ok2 := c10GuardDNF(prog, st.fn, st.b, takesNode)
+		if !ok2 {
+			return nil, nil, false, false
+		}
+		if f2 != nil {
+			if F != nil && F != f2 {
+				mixed = true
+			}
+			F = f2
+		}
+		mixed = mixed || m2
+		dnf = append(dnf, d2...)
+	}
+	return F, dnf, mixed, true
 }
